@@ -77,6 +77,31 @@ SubAttrBad(tree, listed) ==
     IF \E l \in listed : Canon(l.name) \in Names(tree) /\ l.subscribed # Node(tree, Canon(l.name)).sub
     THEN {"C17.SubscribedAttrExact"} ELSE {}
 
+(* RFC 5258 RECURSIVEMATCH with SUBSCRIBED (section 3.5 and example 8 of section 5):
+   a mailbox matching the pattern is returned when it is subscribed, or when it has
+   a subscribed descendant that does NOT match the pattern (that descendant would
+   otherwise not be heard of); when all its subscribed descendants match the
+   pattern returning it is redundant (SHOULD NOT, but allowed).  Nothing else is
+   returned.  One that is returned without being subscribed itself carries
+   CHILDINFO ("SUBSCRIBED"); CHILDINFO is never given to a mailbox without a
+   subscribed descendant.  (Whether a subscribed mailbox with subscribed
+   descendants also carries CHILDINFO is left open.)
+   listed entries here have the fields name, subscribed, childinfo. *)
+HasSubDesc(tree, n) == \E t \in tree : IsBelow(t.name, n) /\ t.sub
+RecursiveBad(tree, ref, pats, listed) ==
+    LET M(n) == \E p \in pats : MatchesName(ref, p, n)
+        matches == {t \in tree : M(t.name)}
+        hidden(n) == \E t \in tree : IsBelow(t.name, n) /\ t.sub /\ ~M(t.name)
+        must == {t.name : t \in {x \in matches : x.sub \/ hidden(x.name)}}
+        may == {t.name : t \in {x \in matches : x.sub \/ HasSubDesc(tree, x.name)}}
+        got == {Canon(l.name) : l \in listed}
+    IN (IF must \ got # {} THEN {"C17.RecursiveMissing"} ELSE {})
+       \cup (IF got \ may # {} THEN {"C17.RecursiveExtra"} ELSE {})
+       \cup (IF \E l \in listed : Canon(l.name) \in may /\ l.childinfo /\ ~HasSubDesc(tree, Canon(l.name))
+             THEN {"C17.ChildInfoExact"} ELSE {})
+       \cup (IF \E l \in listed : Canon(l.name) \in may /\ ~Node(tree, Canon(l.name)).sub /\ ~l.childinfo
+             THEN {"C17.ChildInfoExact"} ELSE {})
+
 ---------------------------------------------------------------------------
 (* C17: namespace commands.  ev: [act, status, name, name2]; trees are the   *)
 (* projected (disk + database) trees before and after.                        *)
